@@ -3,9 +3,21 @@
 meta.json) from /tmp/seed/PROP.out/N/ and the confirmation log /tmp/seed/logs/PROP-N.log."""
 import json, os, re, shutil, sys
 prop, n = sys.argv[1], sys.argv[2]
-src = '/tmp/seed/%s.out/%s' % (prop, n)
-dst = '/verif/seeded/%s-%s' % (prop, n)
-log = open('/tmp/seed/logs/%s-%s.log' % (prop, n)).read() if os.path.exists('/tmp/seed/logs/%s-%s.log' % (prop, n)) else ''
+# SEED_DIR=/tmp/seed2 SEED_TAG=r2 files round-2 records as PROP-r2-N; extra logs (re-checks after strengthening) are
+# /tmp/seedN/logs/PROP-N-b.log etc. and are appended in order
+base = os.environ.get('SEED_DIR', '/tmp/seed')
+tag = os.environ.get('SEED_TAG', '')
+src = '%s/%s.out/%s' % (base, prop, n)
+dst = '/verif/seeded/%s-%s%s' % (prop, (tag + '-') if tag else '', n)
+log = ''
+for suffix in ('', 'b', '-b', '-c'):
+    lp = '%s/logs/%s-%s%s.log' % (base, prop, n, suffix)
+    if os.path.exists(lp):
+        t = open(lp).read()
+        if '--- check' not in t:
+            # a bare tools/mutant.sh log: wrap it
+            t = '--- check %s against the change\n%s\nexit=%d\n' % (prop, t, 1 if 'VIOLATION' in t else 0)
+        log += t + '\n'
 os.makedirs(dst, exist_ok=True)
 for f in ('patch.diff', 'demo.rs', 'notes.md'):
     if os.path.exists(os.path.join(src, f)):
